@@ -1,12 +1,291 @@
 /-
-  CmdExport.lean — driver commands (stub; owned by the group that builds the corresponding model).
+  CmdExport.lean — driver commands of the export/import model (C14) and the comparison model (C15).
+
+  Encodings (no spaces inside a value):
+    register      e0 p12 c3
+    operation     Hadamard:e0 | W(Hadamard.Phase.Identity):p1 | CNOT:e0:p1 | ClassicalCNOT:e0:p1:c0 | MeasurementZ:e0:c1
+    op list       operations joined by ','      ("-" = empty)
+    statement     g:<name>:<reg>:… | m:<q>:<c> | i:<c>:<gate>:<q> | r:<q> | b:<q>.<q>… | qr:<q>:<size> | cr:<c>:<size> | e | raw:<pct>
+    text          percent-encoded (space, newline, '%', ',', ';', '|', '~', '+', ':')
 -/
+import GraphiqModel.Model.Export
+import GraphiqModel.Model.Compare
 import Driver.Proto
 namespace Graphiq.CmdExport
-open Graphiq Graphiq.Proto
+open Graphiq Graphiq.Proto Graphiq.Export
+
+/-! ### percent encoding -/
+
+def hexDigit (n : Nat) : Char := if n < 10 then Char.ofNat (48 + n) else Char.ofNat (55 + n)
+
+def needsEsc (c : Char) : Bool :=
+  c = ' ' || c = '\n' || c = '%' || c = ',' || c = ';' || c = '|' || c = '~' || c = '+' || c = ':' || c = '\t' || c = '\r' ||
+  c.toNat < 32 || c.toNat > 126
+
+def pctEnc (s : Str) : String :=
+  String.ofList (s.flatMap fun c =>
+    if needsEsc c then ['%', hexDigit (c.toNat / 16 % 16), hexDigit (c.toNat % 16)] else [c])
+
+def hexVal (c : Char) : Nat :=
+  if '0' ≤ c ∧ c ≤ '9' then c.toNat - 48 else if 'A' ≤ c ∧ c ≤ 'F' then c.toNat - 55 else if 'a' ≤ c ∧ c ≤ 'f' then c.toNat - 87 else 0
+
+def pctDecL : List Char → List Char
+  | '%' :: a :: b :: rest => Char.ofNat (hexVal a * 16 + hexVal b) :: pctDecL rest
+  | c :: rest => c :: pctDecL rest
+  | [] => []
+
+def pctDec (s : String) : Str := pctDecL s.toList
+
+/-! ### parsing requests -/
+
+def g1OfName (s : String) : Option G1 :=
+  match Cls.ofPyName s.toList with
+  | some (.g1 g) => some g
+  | _ => none
+
+def qregOf (s : String) : Option QReg :=
+  match s.toList with
+  | 'e' :: ds => (String.ofList ds).toNat?.map fun i => ⟨.e, i⟩
+  | 'p' :: ds => (String.ofList ds).toNat?.map fun i => ⟨.p, i⟩
+  | _ => none
+
+def cregOf (s : String) : Option Nat :=
+  match s.toList with
+  | 'c' :: ds => (String.ofList ds).toNat?
+  | _ => none
+
+def opOf (s : String) : Option Op :=
+  let parts := splitChar ':' s
+  let head := parts.headD ""
+  if head.startsWith "W(" then
+    let inner := (head.drop 2).dropEnd 1 |>.toString
+    let names := if inner = "" then [] else splitChar '.' inner
+    match names.mapM g1OfName, (parts[1]?).bind qregOf with
+    | some gs, some q => some (.wrap gs q)
+    | _, _ => none
+  else
+    match Cls.ofPyName head.toList, parts.drop 1 with
+    | some (.g1 g), [q] => (qregOf q).map (.one g)
+    | some (.g2 g), [a, b] => do let a ← qregOf a; let b ← qregOf b; pure (.ctrl g a b)
+    | some (.gc g), [a, b, c] => do let a ← qregOf a; let b ← qregOf b; let c ← cregOf c; pure (.cctrl g a b c)
+    | some .measZ, [q, c] => do let q ← qregOf q; let c ← cregOf c; pure (.meas q c)
+    | _, _ => none
+
+def opsOf (s : String) : Option (List Op) := (listOf s).mapM opOf
+
+def circOf (a : Args) : Option (Circuit × List Op) := do
+  let adds ← opsOf (get a "adds")
+  let c : Circuit := { ne := getNat a "ne", np := getNat a "np", nc := getNat a "nc", ops := adds }
+  if has a "seq" then
+    let idx := natsOf '.' (get a "seq")
+    let seq ← idx.mapM (fun i => adds[i]?)
+    pure (c, seq)
+  else pure (c, adds)
+
+def stmtOf (s : String) : Option Stmt :=
+  match splitChar ':' s with
+  | "g" :: name :: args => (args.mapM qregOf).map (.gate (pctDec name))
+  | ["m", q, c] => do let q ← qregOf q; let c ← cregOf c; pure (.measure q c)
+  | ["i", c, g, q] => do let c ← cregOf c; let q ← qregOf q; pure (.ifx c (pctDec g) q)
+  | ["r", q] => (qregOf q).map .reset
+  | ["b", qs] => ((if qs = "" then [] else splitChar '.' qs).mapM qregOf).map .barrier
+  | ["b"] => some (.barrier [])
+  | ["qr", q, n] => do let q ← qregOf q; let n ← n.toNat?; pure (.qreg q n)
+  | ["cr", c, n] => do let c ← cregOf c; let n ← n.toNat?; pure (.creg c n)
+  | ["e"] => some .empty
+  | ["raw", t] => some (.raw (pctDec t))
+  | _ => none
+
+/-! ### printing replies -/
+
+def showQ (q : QReg) : String := String.ofList q.render
+
+def showOp : Op → String
+  | .one g q => s!"{String.ofList (Cls.g1 g).pyName}:{showQ q}"
+  | .wrap gs q => s!"W({String.intercalate "." (gs.map fun g => String.ofList (Cls.g1 g).pyName)}):{showQ q}"
+  | .ctrl g c t => s!"{String.ofList (Cls.g2 g).pyName}:{showQ c}:{showQ t}"
+  | .cctrl g c t cr => s!"{String.ofList (Cls.gc g).pyName}:{showQ c}:{showQ t}:c{cr}"
+  | .meas q cr => s!"MeasurementZ:{showQ q}:c{cr}"
+
+def showOps (l : List Op) : String := if l.isEmpty then "-" else String.intercalate "," (l.map showOp)
+
+def showCirc (c : Circuit) : String := s!"regs={c.ne}.{c.np}.{c.nc} ops={showOps c.ops}"
+
+def showExc {α : Type} (f : α → String) : Except Err α → String
+  | .ok v => f v
+  | .error e => s!"err:{e}"
+
+def showJOp (j : JOp) : String :=
+  let ty := match j.type with | none => "None" | some t => pctEnc t
+  let ol := match j.opList with
+    | none => "-"
+    | some [] => "[]"
+    | some l => String.intercalate "+" (l.map pctEnc)
+  let qt := String.ofList (j.qTypes.map RegT.ch)
+  s!"{ty}~{ol}~{if qt = "" then "-" else qt}~{showNats "." j.qRegs}~{showNats "." j.cRegs}"
+
+def showJson (j : JCirc) : String :=
+  s!"{j.np}|{j.ne}|{j.nc}|{if j.ops.isEmpty then "-" else String.intercalate ";" (j.ops.map showJOp)}"
+
+def showStd : StdOp → String
+  | .app n args => s!"a:{pctEnc n}:{String.intercalate ":" (args.map showQ)}"
+  | .measure q c => s!"m:{showQ q}:c{c}"
+  | .cond c n q => s!"i:c{c}:{pctEnc n}:{showQ q}"
+  | .reset q => s!"r:{showQ q}"
+
+def showStds (l : List StdOp) : String := if l.isEmpty then "-" else String.intercalate "," (l.map showStd)
+
+/-! ### commands -/
+
+/-- everything the exporters produce for one circuit, and what the importers read back -/
+def cmdAll (a : Args) : String :=
+  match circOf a with
+  | none => "err parse"
+  | some (c, seq) =>
+    let prog := toOpenqasm c seq
+    let text := showExc (fun p => pctEnc p.render) prog
+    let qimp := showExc (fun c => showCirc c) (prog.bind fromOpenqasm)
+    let timp := showExc (fun c => showCirc c) (prog.bind fun p => fromOpenqasmText p.render)
+    let j := toJson c seq
+    let jimp := showExc (fun c => showCirc c) (fromJson j)
+    let std := showExc (fun p => showStds (qasmStd p)) prog
+    let ref := showExc showStds (stdOfCircuit seq)
+    let fl := showOps (flat seq)
+    s!"ok text={text} qimp={qimp.replace " " "/"} timp={timp.replace " " "/"} json={showJson j} jimp={jimp.replace " " "/"} std={std} ref={ref} flat={fl}"
+
+/-- parse a statement list the way `from_openqasm` does; also returns the text that was parsed -/
+def cmdParse (a : Args) : String :=
+  match (listOf (get a "stmts")).mapM stmtOf with
+  | none => "err parse"
+  | some stmts =>
+    let header := if has a "header" then pctDec (get a "header") else "OPENQASM 2.0;".toList
+    let prog : Program := { header := header, imports := [], defs := [], decls := [], body := stmts.map fun s => [s] }
+    let text := header ++ "\n".toList ++ (stmts.flatMap fun s => s.render ++ "\n".toList)
+    let r := showExc showCirc (fromOpenqasm prog)
+    let rt := showExc showCirc (fromOpenqasmText text)
+    s!"ok text={pctEnc text} res={r.replace " " "/"} tres={rt.replace " " "/"}"
+
+/-- `from_openqasm` on arbitrary text (text-level model) -/
+def cmdParseText (a : Args) : String :=
+  let r := showExc showCirc (fromOpenqasmText (pctDec (get a "text")))
+  s!"ok tres={r.replace " " "/"}"
+
+def jopOf (s : String) : Option JOp :=
+  match splitChar '~' s with
+  | [ty, ol, qt, qr, cr] =>
+    some { type := if ty = "None" then none else some (pctDec ty),
+           opList := if ol = "-" then none else if ol = "[]" then some [] else some ((splitChar '+' ol).map pctDec),
+           qTypes := (if qt = "-" then [] else qt.toList).filterMap (fun ch => if ch = 'e' then some RegT.e else if ch = 'p' then some RegT.p else none),
+           qRegs := natsOf '.' qr, cRegs := natsOf '.' cr }
+  | _ => none
+
+/-- `from_json` on an arbitrary (possibly malformed) dictionary -/
+def cmdJsonParse (a : Args) : String :=
+  match splitChar '|' (get a "j") with
+  | [np, ne, nc, ops] =>
+    match (if ops = "-" then [] else splitChar ';' ops).mapM jopOf with
+    | none => "err parse"
+    | some jops =>
+      let j : JCirc := { np := np.toNat?.getD 0, ne := ne.toNat?.getD 0, nc := nc.toNat?.getD 0, ops := jops }
+      s!"ok res={(showExc showCirc (fromJson j)).replace " " "/"}"
+  | _ => "err parse"
+
+/-- `name_to_class_map` / tokenisation on an arbitrary string -/
+def cmdName (a : Args) : String :=
+  let s := pctDec (get a "s")
+  let k := match nameToClass s with | none => "None" | some k => String.ofList k.pyName
+  let toks := String.intercalate "," ((tokenise s).map pctEnc)
+  s!"ok cls={k} toks={if toks = "" then "-" else toks}"
+
+/-- `single_qubit_wrapper_info` for a list of classes -/
+def cmdWrapInfo (a : Args) : String :=
+  match (listOf (get a "gs")).mapM g1OfName with
+  | none => "err parse"
+  | some gs =>
+    match singleQubitWrapperInfo gs with
+    | .error e => s!"err {e}"
+    | .ok i => s!"ok name={pctEnc i.gateName} defs={String.intercalate "|" (i.defs.map fun d => pctEnc d.text)} multi={b01 i.multi}"
+
+/-! ### C15: comparison -/
+
+open Graphiq.Compare in
+def showWire (w : Wire) : String := s!"{w.t.ch}{w.i}"
+
+open Graphiq.Compare in
+def showNd : Nd → String
+  | .inp w => s!"{showWire w}_in"
+  | .out w => s!"{showWire w}_out"
+  | .op id => toString id
+
+open Graphiq.Compare in
+def showNOp : NOp → String
+  | .input w => s!"Input:{showWire w}"
+  | .output w => s!"Output:{showWire w}"
+  | .gate o => showOp o
+
+open Graphiq.Compare in
+def showMG (g : MG) : String :=
+  let ns := String.intercalate ";" (g.nodes.map fun p => s!"{showNd p.1}={showNOp p.2}")
+  let es := String.intercalate ";" (g.edges.map fun e =>
+    s!"{showNd e.src}>{showNd e.dst}>{showWire e.key}>{match e.ct with | some c => String.singleton c | none => "-"}")
+  s!"regs={g.ne}.{g.np}.{g.nc} nodes={if ns = "" then "-" else ns} edges={if es = "" then "-" else es}"
+
+/-- `ne.np.nc/op,op,…` -/
+def circOfStr (s : String) : Option Circuit :=
+  match splitChar '/' s with
+  | [regs, ops] =>
+    match natsOf '.' regs, opsOf ops with
+    | [ne, np, nc], some l => some { ne := ne, np := np, nc := nc, ops := l }
+    | _, _ => none
+  | _ => none
+
+def showEB : Except Err Bool → String
+  | .ok b => b01 b
+  | .error e => s!"err:{e}"
+
+open Graphiq.Compare in
+def cmdGraph (a : Args) : String :=
+  match circOfStr (get a "c") with
+  | none => "err parse"
+  | some c =>
+    match MG.build c with
+    | .error e => s!"err {e}"
+    | .ok g =>
+      let g := if get a "norm" = "1" then g.normalise else g
+      let g := if get a "ct" = "1" then g.addControlTarget else g
+      s!"ok {showMG g}"
+
+open Graphiq.Compare in
+def cmdCmp (a : Args) : String :=
+  match circOfStr (get a "a"), circOfStr (get a "b") with
+  | some c1, some c2 =>
+    s!"ok direct={showEB (direct c1 c2)} directl={b01 (directL c1 c2)} iso={showEB (circuitIsIsomorphic c1 c2)} isonorm={showEB (isoNormalised c1 c2)} reneq={b01 (renEq c1 c2)} wireseq={b01 (wiresEq c1 c2)}"
+  | _, _ => "err parse"
+
+open Graphiq.Compare in
+def cmdFilter (a : Args) : String :=
+  match (splitChar '|' (get a "cs")).mapM circOfStr with
+  | none => "err parse"
+  | some cs =>
+    let idx := cs.zipIdx
+    let isoEq := fun (x y : Circuit × Nat) => match isoNormalised x.1 y.1 with | .ok r => r | .error _ => false
+    let dirEq := fun (x y : Circuit × Nat) => match checkRedundant x.1 y.1 with | .ok r => r | .error _ => false
+    let kept := removeRedundantWith isoEq idx
+    let st := storageAddAll dirEq false idx
+    let st2 := storageAddAll isoEq false idx
+    s!"ok kept={showNats "." (kept.map (·.2))} stdirect={String.ofList (st.2.map fun b => if b then '1' else '0')} stiso={String.ofList (st2.2.map fun b => if b then '1' else '0')}"
 
 def dispatch (cmd : String) (a : Args) : Option String :=
   match cmd with
+  | "c14.all" => some (cmdAll a)
+  | "c14.parse" => some (cmdParse a)
+  | "c14.parsetext" => some (cmdParseText a)
+  | "c14.jsonparse" => some (cmdJsonParse a)
+  | "c14.name" => some (cmdName a)
+  | "c14.wrapinfo" => some (cmdWrapInfo a)
+  | "c15.graph" => some (cmdGraph a)
+  | "c15.cmp" => some (cmdCmp a)
+  | "c15.filter" => some (cmdFilter a)
   | _ => none
 
 end Graphiq.CmdExport
